@@ -181,7 +181,7 @@ def run_enum(case):
         raise ValueError('harness: fault %r on %s is not a fault by the reference validator' % (fault, cn))
     e = verdict(top)
     if e is None:
-        raise Violation('invalid-accepted', '%s: fault %r (%s) under %r is accepted by validation' % (cn, fault, problems[0], case.get('placement', [])))
+        raise Violation('invalid-accepted', '%s: fault %r (%s) under %r is accepted by validation' % (cn, fault, problems[0], case.get('placement', [])), detail={'fault': fault})
     return 'fault|%s|%s' % (fault[0], 'depth%d' % len(case.get('placement', []))), True
 
 
@@ -242,6 +242,7 @@ def _nodes(spec, acc):
 def run_generated(case):
     spec = _fixups(copy.deepcopy(case['spec']))
     label = 'valid'
+    f = None
     if case['do_fault']:
         nodes = _nodes(spec, [])
         node = nodes[case['fault_node'] % len(nodes)]
@@ -253,7 +254,7 @@ def run_generated(case):
     problems = R.problems(spec)
     e = verdict(spec)
     if problems and e is None:
-        raise Violation('invalid-accepted', '%s: %s is accepted by validation' % (spec['cls'], problems[0]))
+        raise Violation('invalid-accepted', '%s: %s is accepted by validation' % (spec['cls'], problems[0]), detail={'fault': f})
     if not problems and e is not None:
         raise Violation('valid-rejected', '%s: an instance satisfying every declared constraint is rejected: %s: %s' % (spec['cls'], type(e).__name__, str(e)[:200]),
                         detail={'type': type(e).__name__})
@@ -269,4 +270,9 @@ def parts(tier):
 
 
 def known_match(part, case, v):
+    f = (v.detail or {}).get('fault') if v.bucket == 'invalid-accepted' else None
+    if f and f[0] in ('attr-type', 'text-type'):
+        for key, (tn, values) in G.LENIENT_KNOWN.items():
+            if f[-1] in values and tn in v.msg:
+                return key
     return None
